@@ -27,7 +27,7 @@ import (
 func init() { register("C15", "fault_enumeration", runC15) }
 
 // server message alphabet
-var c15Alphabet = []string{"SF", "SFn", "SFt", "SFm", "V", "Vk", "Vx", "Ve", "E", "J", "235", "535"}
+var c15Alphabet = []string{"SF", "SFn", "SFt", "SFm", "V", "Vk", "Vx", "Vp", "Ve", "E", "J", "235", "535"}
 
 type c15Case struct {
 	Mech   string   `json:"mech"`
@@ -75,6 +75,7 @@ func c15Handler(c c15Case, tr *c15Trace) refsmtp.AuthHandler {
 		tr.mu.Lock()
 		tr.authCalled = true
 		tr.mu.Unlock()
+		var prevFinal []byte
 		haveCF := false  // a client-first of the running exchange is known
 		sfValid := false // a valid server-first was sent for it
 		haveFin := false // the client-final for that server-first is known
@@ -88,6 +89,13 @@ func c15Handler(c c15Case, tr *c15Trace) refsmtp.AuthHandler {
 			case len(resp) == 0:
 				return "ack"
 			case strings.HasPrefix(string(resp), "n,,") || strings.HasPrefix(string(resp), "p=") || strings.HasPrefix(string(resp), "y,,"):
+				if haveCF && sfValid && haveFin {
+					prevFinal = x.ServerFinal() // the (valid) server-final of the exchange that is being abandoned
+				} else if haveCF && sfValid {
+					// abandoned after server-first: what the client would have expected had it sent its final
+					x.SetClientFinalNoProof("c=biws,r=" + x.ClientNonce + cfg.ServerNonce)
+					prevFinal = x.ServerFinal()
+				}
 				haveCF, sfValid, haveFin = false, false, false
 				if x.ParseClientFirst(resp) == nil {
 					haveCF = true
@@ -159,6 +167,12 @@ func c15Handler(c c15Case, tr *c15Trace) refsmtp.AuthHandler {
 				msg = otherKey(hname, []byte("another-password"), cfg.Salt, 64, x.AuthMessage)
 			case "Vx": // right key, another exchange
 				msg = otherKey(hname, []byte(c15Pass), cfg.Salt, 64, "n=user,r=otherexchange,r=otherexchangeSRV,s=c2FsdA==,i=64,c=biws,r=otherexchangeSRV")
+			case "Vp": // replay: the server-final that was (or would have been) valid for the previous, abandoned exchange of this connection
+				if prevFinal != nil {
+					msg = prevFinal
+				} else {
+					msg = otherKey(hname, []byte(c15Pass), cfg.Salt, 64, "n=user,r=neverhappened,r=neverhappenedSRV,s=c2FsdA==,i=64,c=biws,r=neverhappenedSRV")
+				}
 			case "Ve": // computed over empty client state: HMAC(HMAC(nil,"Server Key"), "")
 				k := hmac.New(hf, nil)
 				k.Write([]byte("Server Key"))
@@ -290,13 +304,13 @@ func runC15Case(r *ev.Run, c c15Case) (open bool) {
 			if st.Sym == "J" && (st.RespKind == "client-final" || st.RespKind == "ack") {
 				viol("continue-after-junk", fmt.Sprintf("step %d: the client continued the exchange after a junk challenge", i), steps)
 			}
-		case "V", "Vk", "Vx", "Ve":
+		case "V", "Vk", "Vx", "Vp", "Ve":
 			if st.RespKind == "ack" {
 				if st.ValidHere {
 					proofSeen = true
 				} else {
 					invalidAcked = true
-					kind := map[string]string{"V": "ack-server-final-without-valid-exchange", "Vk": "ack-server-final-of-other-key", "Vx": "ack-server-final-of-other-exchange", "Ve": "ack-server-final-over-empty-state"}[st.Sym]
+					kind := map[string]string{"V": "ack-server-final-without-valid-exchange", "Vk": "ack-server-final-of-other-key", "Vx": "ack-server-final-of-other-exchange", "Vp": "ack-replayed-server-final-of-abandoned-exchange", "Ve": "ack-server-final-over-empty-state"}[st.Sym]
 					viol(kind, fmt.Sprintf("step %d: the client acknowledged a server-final message that is not the valid one for the running exchange (%s)", i, st.Sym), steps)
 				}
 			} else if st.ValidHere && (st.RespKind == "cancel" || st.RespKind == "closed") {
